@@ -472,14 +472,16 @@ def render_dependencies(content: TContent, type: RenderType = "document") -> TCo
     # then try to insert the JS scripts at the end of <body> and CSS sheets at the end
     # of <head>
     if type == "document" and (not did_find_js_placeholder or not did_find_css_placeholder):
+        # NOTE: Content given as bytes does not have to be UTF-8 (e.g. a response with `charset=latin-1`).
+        # With "surrogateescape" every byte survives the round trip through `str`.
         maybe_transformed = _insert_js_css_to_default_locations(
-            content_.decode(),
+            content_.decode("utf-8", "surrogateescape"),
             css_content=None if did_find_css_placeholder else css_dependencies.decode(),
             js_content=None if did_find_js_placeholder else js_dependencies.decode(),
         )
 
         if maybe_transformed is not None:
-            content_ = maybe_transformed.encode()
+            content_ = maybe_transformed.encode("utf-8", "surrogateescape")
 
     # In case of a fragment, we only append the JS (actually JSON) to trigger the call of dependency-manager
     if type == "fragment":
